@@ -216,7 +216,7 @@ func main() {
 			}
 		}
 		fmt.Println("C18: data race entirely inside harness code: the harness is broken")
-		r.Inconclusive("harness-only race report")
+		r.Broken("a data race report entirely inside harness code")
 	}
 	_ = os.RemoveAll(logDir)
 	r.Finish(2)
